@@ -3,7 +3,8 @@
 Polygons are valid by construction (simple, non-zero area); the check modules re-validate them with the
 exact predicates of exactpoly and raise HarnessError if the construction is wrong.
 
-polygon spec      {"kind": "convex"|"star"|"hist", "v": [[x, y], ...], "cw": bool, "hang": bool,
+polygon spec      {"kind": "convex"|"star"|"hist", "v": [[x, y], ...], "cw": bool, "hang": bool (redundant collinear
+                   vertices inserted, coordinates scaled by 2..4),
                    "c": star centre (lattice point strictly inside that sees all vertices in distinct directions) | None}
 polyhedron spec   {"pts": [[x, y, z], ...]}  (affine rank 3 by construction; the hull is computed by the check)
 voxel solid spec  {"h": [[...], ...], "perm": [a, b, c], "flip": [bool, bool, bool], "shift": [i, j, k]}
@@ -85,24 +86,48 @@ def polygon(draw, kinds=("convex", "star", "star", "hist"), max_extra=7, allow_h
     sh = draw(st.lists(st.integers(-3, 3), min_size=2, max_size=2))
     v = [[p[0] + sh[0], p[1] + sh[1]] for p in v]
     centre = list(sh) if kind == "star" else None
-    hang = allow_hang and draw(st.integers(0, 4)) == 0
+    hang = allow_hang and draw(st.integers(0, 4)) <= 1
+    hang_idx = []
     if hang:
-        # double the coordinates and insert the midpoint of some edges as redundant vertices
+        # scale the coordinates by k and insert redundant (collinear) vertices at multiples of 1/k on some edges;
+        # edges on the extreme sides of the bounding box (leftmost / rightmost / lowest / highest) are forced half of
+        # the time, because "first extreme vertex" shortcuts are exactly what such nodes break
         n = len(v)
+        k = draw(st.sampled_from([2, 2, 3, 4]))
         mask = draw(st.integers(1, 2 ** n - 1))
-        out = []
+        xs, ys = [p[0] for p in v], [p[1] for p in v]
+        ext = [i for i in range(n) if any(
+            v[i][a] == v[(i + 1) % n][a] == lim for a, lim in ((0, min(xs)), (0, max(xs)), (1, min(ys)), (1, max(ys))))]
+        if ext and draw(st.booleans()):
+            for i in ext:
+                mask |= 1 << i
+        full = draw(st.integers(0, 2 ** n - 1))
+        out, ext_idx = [], []
         for i in range(n):
             p, q = v[i], v[(i + 1) % n]
-            out.append([2 * p[0], 2 * p[1]])
+            out.append([k * p[0], k * p[1]])
             if (mask >> i) & 1:
-                out.append([p[0] + q[0], p[1] + q[1]])
+                js = list(range(1, k)) if (full >> i) & 1 else [draw(st.integers(1, k - 1))]
+                for j in js:
+                    hang_idx.append(len(out))
+                    if i in ext:
+                        ext_idx.append(len(out))
+                    out.append([(k - j) * p[0] + j * q[0], (k - j) * p[1] + j * q[1]])
         v = out
-        centre = [2 * centre[0], 2 * centre[1]] if centre is not None else None
-    r = draw(st.integers(0, len(v) - 1))
+        centre = [k * centre[0], k * centre[1]] if centre is not None else None
+        start = draw(st.sampled_from(["any", "hang", "extreme", "extreme"]))
+        if start == "extreme" and ext_idx:
+            r = draw(st.sampled_from(ext_idx))
+        elif start != "any":
+            r = draw(st.sampled_from(hang_idx))
+        else:
+            r = draw(st.integers(0, len(v) - 1))
+    else:
+        r = draw(st.integers(0, len(v) - 1))
     v = v[r:] + v[:r]
     cw = draw(st.booleans())
     if cw:
-        v = v[::-1]
+        v = [v[0]] + v[:0:-1] if draw(st.booleans()) else v[::-1]
     return {"kind": kind, "v": v, "cw": cw, "hang": hang, "c": centre}
 
 
